@@ -1,7 +1,8 @@
 (* Properties/C03.v — statements only.  C03, writer half: from writer events to the
    document, for XmlEventWriter (XMLGenerator sink) and LxmlEventWriter (lxml sink). *)
 From Coq Require Import NArith List Bool.
-From XV Require Import Base.Str Spec.XmlNs Model.Writer Proofs.WriterRefute Proofs.WriterEscape.
+From XV Require Import Base.Str Spec.XmlNs Model.Writer Proofs.WriterRefute Proofs.WriterEscape
+  Proofs.WriterTree Proofs.WriterStep Proofs.WriterMaps Proofs.WriterWf Proofs.WriterNative Proofs.WriterSound.
 Import ListNotations.
 Open Scope N_scope.
 
@@ -20,6 +21,43 @@ Theorem C03_hostile_text_cr_refuted :
   exists s, forallb is_xml_char s = true /\ text_value (sax_escape s) <> Some s.
 Proof. exact hostile_text_cr_refuted. Qed.
 Print Assumptions C03_hostile_text_cr_refuted.
+
+(* ---- WInv: the event handler, run over any well-nested event list (flattened tree) from a
+   steady state (inside an element whose start tag is out), performs exactly the SAX calls of
+   the reference function and returns to the same state: ns_context / pending_prefixes /
+   in_tail / tail are restored (stack discipline), no Python exception is raised *)
+Theorem C03_WInv_preserved : forall i m ps pp it,
+  item_ok i = true ->
+  (match i with IData v => data_plain v && (negb it || value_falsy v) | _ => true end) = true ->
+  wrun (steady m ps pp it) (flatten i) = (steady m ps pp (is_data i), flat_map sflat (wref m i), None).
+Proof. exact item_runs_all. Qed.
+Print Assumptions C03_WInv_preserved.
+
+Theorem C03_WInv_document : forall user a0 q ats ks,
+  item_ok (INode q ats ks) = true ->
+  exists s', wrun (idle [] false user a0 false []) (flatten (INode q ats ks))
+             = (s', sflat (wref_root user a0 q ats ks), None).
+Proof. exact document_runs. Qed.
+Print Assumptions C03_WInv_document.
+
+(* the guard on the user map establishes the prefix-map invariant (no binding can be overwritten) *)
+Theorem C03_user_map_invariant : forall user,
+  user_prefixes_legal user = true -> user_no_collision user = true ->
+  minv (user_default user) (serializer_ns_map user).
+Proof. exact user_minv. Qed.
+Print Assumptions C03_user_map_invariant.
+
+(* ---- native writer, under the guard: the call succeeds, the document is well-formed and
+   namespace-well-formed (every prefix used is declared in scope, no duplicate attributes,
+   legal declarations), and its infoset is the one of the reference SAX tree *)
+Theorem C03_writer_wellformed_native : forall cfg user evs,
+  writer_guard cfg user evs = true ->
+  exists q ats ks d,
+    evs = flatten (INode q ats ks)
+    /\ run_native cfg user evs = inl d
+    /\ resolve d = Some (itree_of (wref_root (serializer_ns_map user) (cfg_attrs cfg) q ats ks)).
+Proof. exact writer_wellformed_native. Qed.
+Print Assumptions C03_writer_wellformed_native.
 
 (* ---- the unguarded statement is false of the faithful model; one witness per guard clause *)
 Theorem C03_native_sound_unguarded_refuted : ~ (forall cfg user evs, native_sound_b cfg user evs = true).
